@@ -1,5 +1,7 @@
 # self-validation battery (see runner.py): mutants must be reported under the named rule, neutral rewrites must stay silent
 MUTANTS = [
+    {'name': 'revert: destinations rewritten on a copy of the segment', 'revert': 'rewrites destinations on its own copy', 'expect': '|FIELD-owner|'},
+    {'name': 'waiting destinations appended to the shared segment', 'file': 'partitura/score.py', 'old': '                        seg = copy(seg)\n                        seg.to = to\n', 'new': '                        seg.to.clear()\n                        seg.to.extend(to)\n                        seg = copy(seg)\n', 'expect': '|FIELD-owner|'},
     {'name': 'revert: own slur/tuplet lists', 'revert': 'its own slur/tuplet lists', 'expect': '|SHARE-copy|'},
     {'name': 'DaCapo copied into the unfolded part', 'file': 'partitura/score.py', 'old': '                            ToCoda,\n                            DaCapo,\n                            DalSegno,', 'new': '                            ToCoda,\n                            DalSegno,', 'expect': 'EXCL'},
     {'name': 'copies not recorded in o_map', 'file': 'partitura/score.py', 'old': '                    o_map[o] = o_copy\n', 'new': '', 'expect': 'REFS'},
